@@ -126,6 +126,14 @@ def const_of(v):
     return None
 
 
+def mentions_atom(v, k, depth=0):
+    if not isinstance(v, tuple) or depth > 10:
+        return False
+    if v == ("atom", k) or v == ("ref", 0):
+        return True
+    return any(mentions_atom(x, k, depth + 1) for x in v if isinstance(x, tuple))
+
+
 def strip_casts(v):
     while isinstance(v, tuple) and v and v[0] in ("cast", "tryok", "unwrapped"):
         v = v[1]
@@ -550,10 +558,10 @@ def check_w3(t, ser_ok, rd, mode, rep):
                     rep.add("W3", "%s:%s:tag%s" % (t.key, mode, c), "`%s` (%s): tag %s, which no variant writes, is mapped to variant %d" % (t.key, mode, c, r.value[2]), t.loc)
                 elif not ok:
                     rep.add("W3", "%s:%s:tag%s" % (t.key, mode, c), "`%s` (%s): tag %s is written for variant %s but read back as variant index %d" % (t.key, mode, c, exp_v[1], r.value[2]), t.loc)
-        elif els:
+        elif els or (r.outcome == "err" and r.atoms and r.atoms[0].atom is not None and len(r.atoms) == 1 and any(mentions_atom(d[0], r.atoms[0].atom) for d in r.dyn)):
+            # rejecting path: catch-all arm, or an explicit range test on the tag (`if tag > K { return Err(..) }`)
             seen_else = True
-            s = els[0]
-            av = strip_casts(s[1])
+            av = strip_casts(els[0][1]) if els else ("atom", r.atoms[0].atom)
             if r.outcome == "ok":
                 rep.oblige(False)
                 rep.add("W3", "%s:%s:catch-all" % (t.key, mode), "`%s` (%s): the catch-all arm of the tag match builds a value instead of rejecting the tag" % (t.key, mode), t.loc)
